@@ -1,6 +1,7 @@
 package checks
 
 import (
+	"github.com/invopop/gobl/num"
 	"encoding/json"
 	"fmt"
 	"sort"
@@ -9,6 +10,7 @@ import (
 	"github.com/invopop/gobl/bill"
 
 	"verif/internal/corpus"
+	"verif/internal/dec"
 	"verif/internal/ev"
 	"verif/internal/gen"
 	"verif/internal/gx"
@@ -192,6 +194,20 @@ func runC17(c *Ctx) {
 		d := g0.Document(gen.Profile{Schema: "bill/invoice", MaxLines: 8, Preset: true, FixedAtCur: true, TaxFocus: i%2 == 1})
 		bases = append(bases, base{"generated", d.JSON, d.Features})
 	}
+	// invoices whose rows cancel out (total exactly zero) with prices including tax:
+	// the removal of the included tax leaves residues on both signs
+	{
+		zr := c.Rand(77)
+		for i := 0; i < c.N(300, 20000); i++ {
+			q := 2 + zr.IntN(300)
+			pr := dec.New(1+zr.Int64N(999), 2)
+			tot := dec.New(pr.U.Int64()*int64(q), 2)
+			rk := []string{"standard", "reduced", "super-reduced"}
+			doc := fmt.Sprintf(`{"$schema":"https://gobl.org/draft-0/bill/invoice","uuid":"0190a1b2-c3d4-7e5f-8a9b-0c1d2e3f4a5b","code":"Z-%d","issue_date":"2024-06-01","currency":"EUR","tax":{"prices_include":"VAT"},"supplier":{"name":"A","tax_id":{"country":"ES","code":"B98602642"}},"lines":[{"quantity":"%d","item":{"name":"x","price":"%s"},"taxes":[{"cat":"VAT","rate":"%s"}]},{"quantity":"1","item":{"name":"y","price":"-%s"},"taxes":[{"cat":"VAT","rate":"%s"}]}]}`,
+				i, q, pr.String(), rk[zr.IntN(3)], tot.String(), rk[zr.IntN(3)])
+			bases = append(bases, base{"generated-zero-total", []byte(doc), map[string]bool{"prices-include": true}})
+		}
+	}
 	c.Parallel(len(bases), func(i int) {
 		b := bases[i]
 		rng := c.Rand(uint64(100 + i))
@@ -330,8 +346,36 @@ func runC17(c *Ctx) {
 						if dB.Totals != nil {
 							pb = dB.Totals.Payable
 						}
-						c.R.Fail("remove-included:payable", fmt.Sprintf("%s: total with tax was %s, payable after removing included taxes is %s (rounding %v)", b.origin, dA.Totals.TotalWithTax, pb, strOrNil(dB.Totals.Rounding)), wit())
-					} else if dB.Totals.Rounding != nil {
+						// one class of this is understood (KNOWN_FINDINGS.txt): the precise total
+						// lies exactly on a half unit, so every adjustment of one unit overshoots
+						// to the other side; it is recognised by trying that adjustment once more
+						sig := "remove-included:payable"
+						if dB.Totals != nil && inv2.Totals != nil {
+							want := mustD(dA.Totals.TotalWithTax)
+							diff := want.Sub(mustD(dB.Totals.Payable))
+							one := dec.New(1, want.E)
+							if diff.Cmp(one) == 0 || diff.Neg().Cmp(one) == 0 {
+								var flipped bool
+								Safely(func() {
+									adj := num.MakeAmount(diff.U.Int64(), uint32(diff.E))
+									if inv2.Totals.Rounding != nil {
+										adj = inv2.Totals.Rounding.Add(adj)
+									}
+									inv2.Totals.Rounding = &adj
+									if inv2.Calculate() == nil {
+										if dC, e := viewInvoice(inv2); e == nil && dC.Totals != nil {
+											flipped = mustD(dC.Totals.Payable).Sub(want).Cmp(diff) == 0
+										}
+									}
+								})
+								if flipped {
+									sig = "remove-included:payable:half-unit-oscillation"
+								}
+							}
+						}
+						c.R.Fail(sig, fmt.Sprintf("%s: total with tax was %s, payable after removing included taxes is %s (rounding %v)", b.origin, dA.Totals.TotalWithTax, pb, strOrNil(dB.Totals.Rounding)), wit())
+					}
+					if dB.Totals != nil && mustD(dB.Totals.Payable).Cmp(mustD(dA.Totals.TotalWithTax)) == 0 && dB.Totals.Rounding != nil {
 						c.R.Count("remove_included_with_rounding_residue", 1)
 						// the residue recorded must be exactly the difference
 						if mustD(dB.Totals.TotalWithTax).Add(mustD(*dB.Totals.Rounding)).Cmp(mustD(dB.Totals.Payable)) != 0 {
